@@ -1021,8 +1021,66 @@ class ModuleInliner:
             self.defs = enumerate_defs(self.modname, self.tree)
             self.new = [d for d in self.defs if d.qual not in self.known]
 
+    def _nest_value_refs(self):
+        """A new helper that is only handed on as a value (`pool.map(self._helper, chunk)`, `key=_helper`) cannot be expanded at a call site; it is turned
+        back into the local closure it replaces: a copy of the definition is nested at the top of the function that refers to it and the reference becomes
+        the plain name."""
+        changed = False
+        for caller in list(self.defs):
+            if caller.parent is not None:
+                continue
+            top_cls = caller.cls
+            first = caller.node.args.args[0].arg if caller.node.args.args else None
+            for g in list(self.new):
+                if g is caller or g.kind == "nested" or not self._eligible(g):
+                    continue
+                name = g.node.name
+                refs = []
+                for n in ast.walk(caller.node):
+                    for fld, val in ast.iter_fields(n):
+                        vals = val if isinstance(val, list) else [val]
+                        for v in vals:
+                            if isinstance(n, ast.Call) and fld == "func":
+                                continue
+                            if g.kind == "method" and top_cls is not None and g.cls is top_cls and isinstance(v, ast.Attribute) and v.attr == name \
+                                    and isinstance(v.value, ast.Name) and v.value.id == first and isinstance(v.ctx, ast.Load) \
+                                    and "staticmethod" not in [ast.unparse(x) for x in g.node.decorator_list] and "classmethod" not in [ast.unparse(x) for x in g.node.decorator_list]:
+                                refs.append((n, fld, v))
+                            elif g.kind == "module" and isinstance(v, ast.Name) and v.id == name and isinstance(v.ctx, ast.Load):
+                                refs.append((n, fld, v))
+                if not refs:
+                    continue
+                if name in _stored_names(caller.node):
+                    continue
+                nested = copy.deepcopy(g.node)
+                nested.decorator_list = []
+                if g.kind == "method":
+                    if not nested.args.args or nested.args.args[0].arg != first:
+                        continue
+                    nested.args.args = nested.args.args[1:]
+                body = caller.node.body
+                pos = 1 if (body and isinstance(body[0], ast.Expr) and isinstance(body[0].value, ast.Constant) and isinstance(body[0].value.value, str)) else 0
+                body.insert(pos, nested)
+                for (n, fld, v) in refs:
+                    new = ast.copy_location(ast.Name(id=name, ctx=ast.Load()), v)
+                    val = getattr(n, fld)
+                    if isinstance(val, list):
+                        val[[i for i, x in enumerate(val) if x is v][0]] = new
+                    else:
+                        setattr(n, fld, new)
+                self.log.append(f"{caller.qual}: value reference to {g.qual} turned into a local closure")
+                self.expanded[id(g)] = self.expanded.get(id(g), 0) + 1
+                changed = True
+        if changed:
+            self.defs = enumerate_defs(self.modname, self.tree)
+            old_exp = self.expanded
+            self.new = [d for d in self.defs if d.qual not in self.known]
+            # carry the expansion counts over to the re-enumerated defs (same nodes)
+            self.expanded = {id(d): n for d in self.new for k, n in old_exp.items() if k == id(d)} | old_exp
+
     def run(self) -> ast.Module:
         self._renest_moved()
+        self._nest_value_refs()
         self._inline_new_constants()
         if not self.new:
             return self.tree
